@@ -7,6 +7,11 @@ import traceback
 from . import coqrun
 
 
+class Skip(Exception):
+    """Raised by a component's run_impl for an outcome that is no result at all (e.g. a RecursionError under a
+    deliberately lowered recursion limit): the case is counted and left out, never reported."""
+
+
 def run_stream(run, comp, cases, rundir, name, case_type, code_fn, prop_bits, corr_bits=(0,),
                shrink=True, stream_label=None, max_report=3, shard=300, known=None):
     """run: report.Run; comp: component module with run_impl/render/BITS/nontrivial/jsonable
@@ -23,6 +28,9 @@ def run_stream(run, comp, cases, rundir, name, case_type, code_fn, prop_bits, co
     for case in cases:
         try:
             res = comp.run_impl(case)
+        except Skip as e:
+            stats["skipped: %s" % e] += 1
+            continue
         except Exception as e:  # the implementation raised on a valid input
             impl_errors.append((case, "%s: %s" % (type(e).__name__, e), traceback.format_exc()[-1500:]))
             stats["impl_raised"] += 1
